@@ -200,7 +200,8 @@ def run_tls(sc, trace=False):
     pkts = cap.pkts
     if ct.get("sub"):      # sub-microsecond parts: timestamps become rationals (numerator, denominator) of seconds
         pkts = [((ts * 1000 + (i * 377) % 1000, 10 ** 9), fr) for i, (ts, fr) in enumerate(cap.pkts)]
-    data = pcapng_bytes(pkts, le=ct.get("le", True), tsresol=ct.get("tsresol"), tsoffset=ct.get("tsoffset"))
+    data = pcapng_bytes(pkts, le=ct.get("le", True), tsresol=ct.get("tsresol"), tsoffset=ct.get("tsoffset"),
+                        second_if=tuple(ct["second_if"]) if ct.get("second_if") else None)
     res = runner.run_inproc(data, "\n".join(keylog) + "\n", opts=opts, trace=trace)
     obs, o = observe_tls(res, conns, flows, opts)
     return cap, conns, flows, res, obs, o
